@@ -61,7 +61,13 @@ def to_da(X, dask):
 
 
 def val(x):
-    return np.asarray(x.compute().values if hasattr(x, "compute") else x.values)
+    """Materialise (dask) results; a failure here is xeofs failing to deliver a result, not a harness error."""
+    from vlib.runner import Violation
+
+    try:
+        return np.asarray(x.compute().values if hasattr(x, "compute") else x.values)
+    except Exception as e:  # noqa: BLE001
+        raise Violation(ID, "compute_raises", f"computing a lazy result raised {type(e).__name__}: {str(e)[:150]}", {"exc": type(e).__name__})
 
 
 def run_case(desc, ctx):
